@@ -140,6 +140,52 @@ def gen_setval(rng, ty):
     return ['i', v, as_str]
 
 
+def gen_aligned_case(rng):
+    """misc requests outstanding for parameters X while the device sends MISC_VALUE_UPDATED notifications for OTHER parameters
+    whose index is  command | (X_lo << 8)  and whose first value byte is X_hi, for every misc command: stripped of their command
+    byte such notifications would read as the reply to the outstanding request"""
+    xs = rng.sample([0, 1, 2, 3, 7, 0x0103, 0x0205, 255], rng.randint(1, 2))
+    toc, n = [], 0
+    ids = set(xs)
+    for x in xs:
+        toc.append([x, n, n % 3, rng.choice(TYPES), 0, 1])
+        n += 1
+    aligned = []
+    for x in xs:
+        for cmd in rng.sample([3, 4, 5, 6], rng.randint(2, 4)):
+            i = cmd | ((x & 0xFF) << 8)
+            if i in ids:
+                continue
+            ids.add(i)
+            toc.append([i, n, n % 3, rng.choice([9, 9, 10, 6, 1, 2, 8, 7]), 0, int(rng.random() < 0.5)])
+            n += 1
+            aligned.append([i, (x >> 8) & 0xFF])
+    rng.shuffle(toc)
+    for k, e in enumerate(toc):
+        e[1] = k
+        e[2] = k % 3
+    cbn = iter(range(1000, 2000))
+    cfg = {'toc': toc, 'cb_param': [[rng.randrange(len(toc)), next(cbn)]], 'cb_group': [], 'cb_all': [next(cbn)],
+           'dev_init': {str(e[0]): gen_bytes(rng, e[3]) for e in toc}, 'dev_default': {str(e[0]): gen_bytes(rng, e[3]) for e in toc},
+           'dev_enoent': [e[0] for e in toc if rng.random() < 0.1]}
+    tag = iter(range(1, 1000))
+    xnames = [e[1] for e in toc if e[0] in xs]
+    threads = [[['readall']]]
+    used = set()
+    for t in range(rng.randint(1, 2)):
+        ops = threads[0] if t == 0 else []
+        for _ in range(rng.randint(2, 5)):
+            nm, cmd = rng.choice(xnames), rng.choice([3, 4, 5, 6])
+            if (cmd, nm) in used:
+                continue
+            used.add((cmd, nm))
+            ops.append(['misc', cmd, nm, next(tag)])
+        if t:
+            threads.append(ops)
+    return {'cfg': cfg, 'threads': threads, 'sched': None,
+            'gen': {'burst': rng.random() < 0.6, 'drain': True, 'notify': 0.3, 'stray': 0, 'budget': 70, 'aligned': aligned}}
+
+
 def gen_cache_case(rng):
     """a single-session case whose parameter table reaches Param through the real TocFetcher: cache hit in the read-only or the
     read-write cache directory on a file in HEAD's on-disk format, or download; indices 0..n-1; read-only and read-write,
@@ -446,7 +492,12 @@ def execute(case, rng=None, harness=None):
             while len(flags) < len(h.dev.out):
                 flags.append(ev[0] == 'S')
             sn = h.snapshot()
-            steps.append({'ev': desc, 'model': mod, 'obs': h.drain(), 'snap': sn, 'stray': stray_delivered})
+            obs_ = h.drain()
+            for o_ in [x for x in obs_ if x[0] == 'mutated']:
+                problems.append({'what': 'a callback altered the received packet that the other callbacks of the port are handed as well',
+                                 'received': list(o_[2]), 'after_dispatch': list(o_[3]), 'index': len(steps)})
+            obs_ = [x for x in obs_ if x[0] != 'mutated']
+            steps.append({'ev': desc, 'model': mod, 'obs': obs_, 'snap': sn, 'stray': stray_delivered})
             if sn['dead']:
                 problems.append({'what': 'a thread died', 'detail': sn['dead']})
             if sn['init_event'] != sn['updated']:
@@ -482,6 +533,19 @@ def execute(case, rng=None, harness=None):
                 elif rng.random() < gen.get('notify', 0) and cfg['toc']:
                     e = rng.choice(cfg['toc'])
                     ev = ['N', e[0], gen_bytes(rng, e[3])]
+                    al = gen.get('aligned')
+                    if al and rng.random() < 0.75:
+                        # adversarial alignment: without its command byte the notification reads as a misc reply
+                        # [command, index of a parameter with a request outstanding, ...]
+                        i_, first = rng.choice(al)
+                        e = next(x for x in cfg['toc'] if x[0] == i_)
+                        b = gen_bytes(rng, e[3])
+                        b[0] = first
+                        if len(b) > 1 and rng.random() < 0.5:
+                            b[1] = rng.choice([2, 42, 0, 1])
+                        if e[3] in FLOAT:
+                            b[-1] = 0x40        # keep it a finite number (NaN payloads do not survive str() / float())
+                        ev = ['N', e[0], b]
                 elif not en:
                     break
                 elif gen.get('burst') and issuing and rng.random() < 0.7:
@@ -1335,6 +1399,11 @@ def _executions(ctx):
         rec = execute(case, _First())
         case['sched'] = rec['sched']
         runs.append((case, rec, 'sweep'))
+    for k in range(ctx.scale(60, 1200)):
+        case = gen_aligned_case(ctx.rng)
+        rec = execute(case, ctx.rng)
+        case['sched'] = rec['sched']
+        runs.append((case, rec, 'aligned'))
     for k in range(ctx.scale(40, 800)):
         case = gen_cache_case(ctx.rng)
         rec = execute(case, ctx.rng)
@@ -1768,6 +1837,13 @@ def check_run(case, rec):
                 continue
             wrong = True
             data = pk[2] if pk else b''
+            if pk and pk[1] == 3 and data[:1] == b'\x01':
+                nid = int.from_bytes(data[1:3], 'little')
+                fail('value_notification_consumed_as_misc_reply',
+                     'callback of request #%d (cmd %d, param id %d) was invoked by the unsolicited MISC_VALUE_UPDATED notification for '
+                     'parameter id %d (= cmd | id_lo << 8, first value byte = id_hi)' % (q, r['cmd'], e[0], nid),
+                     expected='not called', observed=[list(data), res], step=si)
+                continue
             pid = int.from_bytes(data[1:3], 'little') if len(data) >= 3 else -1
             if len(data) >= 3 and data[0] == r['cmd'] and pid == e[0]:
                 fail('misc_reply_shared_by_requests_for_same_param',
@@ -1784,7 +1860,8 @@ def check_run(case, rec):
 
 
 def _any_misattribution(fails):
-    return any(f['class'] in ('misc_reply_shared_by_requests_for_same_param', 'misc_reply_to_request_for_other_param')
+    return any(f['class'] in ('misc_reply_shared_by_requests_for_same_param', 'misc_reply_to_request_for_other_param',
+                              'value_notification_consumed_as_misc_reply')
                for f in fails)
 
 
